@@ -45,6 +45,30 @@ def build(rng, tier):
                             ops = [f"eng perturb {1 + r2.below(10 ** 9)}", f"eng new {inst} {pid} par {t}"] + engcheck.load_ops(inst, inp) + runop + ["eng perturb 0"]
                             cases.append(engcheck.Case(pid, inst, ops, {"inp": inp, "kind": f"{kind}{'+irp' if irp else ''}", "threads": t,
                                                                        "was": "F5" if kind == "lat" and has_agg_over_lat(p) else None}))
+    # forced shape "delta x delta only": walks of doubling length  walk(x,z,n+m) <-- walk(x,y,n), walk(y,z,m), if n == m  over acyclic graphs.  A walk of length 2n has exactly
+    # ONE derivation, and both of its halves are new in the same iteration while their join keys already have older (shorter) rows in total: a combined total+delta read that
+    # stops at the first of its two indices loses it (ordinary non-linear programs hide this behind redundant derivations)
+    dw = {"rels": [{"arity": 2}, {"arity": 3}],
+          "rules": [{"heads": [(1, [("var", 0), ("var", 1), 1])], "body": [("cl", 0, [("v", 0), ("v", 1)], [])]},
+                    {"heads": [(1, [("var", 0), ("var", 2), ("add", ("var", 3), ("var", 4))])],
+                     "body": [("cl", 1, [("v", 0), ("v", 1), ("v", 3)], []), ("cl", 1, [("v", 1), ("v", 2), ("v", 4)], []), ("if", ("eq", ("var", 3), ("var", 4)))]}]}
+    for irp in (False, True):
+        pid = f"dw{int(irp)}"
+        progs[pid] = dw
+        mods.append((pid, eng.rs_module(pid, dw, macro="ascent_par", attrs=("inter_rule_parallelism",) if irp else ())))
+        for j in range(3 if tier == "quick" else 10):
+            r2 = rng.fork(f"{pid}i{j}")
+            nn = r2.range(6, 10)
+            edges = [(i, i + 1) for i in range(nn)]                       # a chain: walks of length 1, 2, 4, 8
+            for _ in range(r2.below(4)):                                   # plus a few forward shortcuts (still acyclic)
+                a = r2.below(nn - 1); e = (a, r2.range(a + 2, nn))
+                if e not in edges: edges.append(e)
+            edges = r2.shuffle(edges)
+            inp = {0: edges}
+            for t in (POOLS if tier == "thorough" else [1, r2.choice(POOLS[1:])]):
+                inst = f"{pid}_{j}_{t}"
+                ops = [f"eng perturb {1 + r2.below(10 ** 9)}", f"eng new {inst} {pid} par {t}"] + engcheck.load_ops(inst, inp) + [f"eng runpp {inst} {t}", f"eng dump {inst}", f"eng iters {inst}", "eng perturb 0"]
+                cases.append(engcheck.Case(pid, inst, ops, {"inp": inp, "kind": "doubling-walks" + ("+irp" if irp else ""), "threads": t}))
     # witness of finding F5 (fixed by 058163a; must pass): an aggregate over a lattice in parallel mode (re-queued rows were indexed twice)
     w = {"rels": [{"arity": 3}, {"arity": 1}, {"arity": 3, "lat": "min"}, {"arity": 2}],
          "rules": [{"heads": [(2, [("var", 0), ("var", 1), ("var", 2)])], "body": [("cl", 0, [("v", 0), ("v", 1), ("v", 2)], [])]},
